@@ -1163,3 +1163,140 @@ Proof.
       * destruct (tok_skip s_UNKNOWN t1) as [[|] t3]; discriminate.
     + destruct (lenN pp_magic2 <=? lenN b); discriminate.
 Qed.
+
+(* ================================================================== *)
+(* the first sentence, in the words of the property                    *)
+Theorem pp_prefix_consistent ipf p x :
+  pp_parse ipf p = More \/ pp_parse ipf p = pp_parse ipf (p ++ x).
+Proof.
+  destruct (pp_parse ipf p) as [h n| |e] eqn:E; [right|left; reflexivity|right]; symmetry.
+  - apply pp_ok_stable; exact E.
+  - apply pp_reject_stable; exact E.
+Qed.
+
+Lemma inits_spec l p : In p (inits l) -> exists x, l = p ++ x.
+Proof.
+  revert p; induction l as [|a l IH]; intros p H; cbn [inits] in H.
+  - destruct H as [<-|[]]. exists []. reflexivity.
+  - destruct H as [<-|H]; [exists (a :: l); reflexivity|].
+    apply in_map_iff in H as (q & <- & Hq). destruct (IH q Hq) as (x & ->). exists x. reflexivity.
+Qed.
+
+Theorem pp_all_prefixes_consistent ipf full o :
+  In o (pp_parse_prefixes ipf full) -> o = More \/ o = pp_parse ipf full.
+Proof.
+  unfold pp_parse_prefixes. intros H. apply in_map_iff in H as (p & <- & Hp).
+  destruct (inits_spec _ _ Hp) as (x & ->). apply pp_prefix_consistent.
+Qed.
+
+(* ================================================================== *)
+(* the deviation: whatever follows the digits of the destination port is ignored *)
+Theorem v1_tcp_trailing_bytes_ignored ipf fam st dt sa da sps dps junk rest :
+  st <> [] -> dt <> [] -> forallb ipChars st = true -> forallb ipChars dt = true ->
+  ipf st = Some sa -> ipf dt = Some da ->
+  ((fam = 52 /\ is_ipv4 sa = true /\ is_ipv4 da = true) \/ (fam = 54 /\ is_ipv4 sa = false /\ is_ipv4 da = false)) ->
+  sps <> [] -> Forall is_dec sps -> dec_value sps <= 65535 ->
+  dps <> [] -> Forall is_dec dps -> dec_value dps <= 65535 ->
+  stops10 junk -> forallb nonCR junk = true ->
+  lenN (fam :: 32 :: st ++ 32 :: dt ++ 32 :: sps ++ 32 :: dps ++ junk) <= 96 ->
+  pp_parse ipf (pp_magic1 ++ (32 :: s_TCP ++ fam :: 32 :: st ++ 32 :: dt ++ 32 :: sps ++ 32 :: dps ++ junk) ++ 13 :: 10 :: rest) =
+  Ok {| h_v2 := false; h_cmd := pp_cmdProxy; h_ignore := false;
+        h_src := sa; h_sport := dec_value sps; h_dst := da; h_dport := dec_value dps; h_tlvs := [] |}
+     (lenN pp_magic1 + (lenN (32 :: s_TCP ++ fam :: 32 :: st ++ 32 :: dt ++ 32 :: sps ++ 32 :: dps ++ junk) + 1 + 1)).
+Proof.
+  intros Hst Hdt Hsc Hdc Hsa Hda Hfam Hs1 Hs2 Hs3 Hd1 Hd2 Hd3 Hstop Hj Hlen.
+  assert (Hfc : famChars fam = true) by (destruct Hfam as [(-> & _)|(-> & _)]; reflexivity).
+  assert (Hfn : nonCR fam = true) by (destruct Hfam as [(-> & _)|(-> & _)]; vm_compute; reflexivity).
+  pose proof Hlen as Hlen'. repeat (rewrite lenN_app in Hlen' || cbn [lenN] in Hlen').
+  rewrite v1_tcp_line; [| |exact Hlen].
+  2:{ cbn [forallb]. rewrite Hfn. replace (nonCR 32) with true by (vm_compute; reflexivity). cbn [andb].
+      apply forallb_app'; [apply forallb_ip_nonCR; exact Hsc|]. cbn [forallb].
+      replace (nonCR 32) with true by (vm_compute; reflexivity). cbn [andb].
+      apply forallb_app'; [apply forallb_ip_nonCR; exact Hdc|]. cbn [forallb].
+      replace (nonCR 32) with true by (vm_compute; reflexivity). cbn [andb].
+      apply forallb_app'; [apply forallb_Forall_dec; exact Hs2|]. cbn [forallb].
+      replace (nonCR 32) with true by (vm_compute; reflexivity). cbn [andb].
+      apply forallb_app'; [apply forallb_Forall_dec; exact Hd2|exact Hj]. }
+  rewrite (v1_addresses_upto_family ipf fam st dt sa da (sps ++ 32 :: dps ++ junk) Hfc Hst Hdt Hsc Hdc Hsa Hda) by (unfold npos; lia).
+  assert (Haf : address_family sa da = [fam]).
+  { unfold address_family. destruct Hfam as [(-> & -> & ->)|(-> & -> & ->)]; reflexivity. }
+  rewrite Haf, list_eqb_refl. cbn [negb].
+  rewrite extract_port_sp; try assumption; [|repeat (rewrite lenN_app || cbn [lenN]); unfold npos; lia].
+  rewrite extract_port_last; try assumption; [|rewrite lenN_app; unfold npos; lia].
+  reflexivity.
+Qed.
+
+Definition b_1111 : bytes := [49;46;49;46;49;46;49].                      (* "1.1.1.1" *)
+Definition a_1111 : ipaddr := v4_prefix ++ [1;1;1;1].
+Definition b_mapped : bytes := [58;58;102;102;102;102;58;49;46;49;46;49;46;49].   (* "::ffff:1.1.1.1" *)
+Definition b_v6 : bytes := [58;58;49].                                    (* "::1" *)
+Definition a_v6 : ipaddr := [0;0;0;0;0;0;0;0;0;0;0;0;0;0;0;1].
+(* "PROXY TCP4 1.1.1.1 1.1.1.1 1 2xyz\r\n" *)
+Definition line_trailing : bytes :=
+  pp_magic1 ++ (32 :: s_TCP ++ 52 :: 32 :: b_1111 ++ 32 :: b_1111 ++ 32 :: [49] ++ 32 :: [50] ++ [120;121;122]) ++ 13 :: 10 :: [].
+(* "PROXY TCP6 ::ffff:1.1.1.1 ::1 1 2\r\n" *)
+Definition line_mapped : bytes :=
+  pp_magic1 ++ (32 :: s_TCP ++ 54 :: 32 :: b_mapped ++ 32 :: b_v6 ++ 32 :: [49;32;50]) ++ 13 :: 10 :: [].
+
+Theorem v1_bytes_after_dst_port_refuted ipf :
+  ipf b_1111 = Some a_1111 ->
+  pp_parse ipf line_trailing =
+  Ok {| h_v2 := false; h_cmd := pp_cmdProxy; h_ignore := false;
+        h_src := a_1111; h_sport := 1; h_dst := a_1111; h_dport := 2; h_tlvs := [] |} (lenN line_trailing).
+Proof.
+  intros H. unfold line_trailing.
+  rewrite (v1_tcp_trailing_bytes_ignored ipf 52 b_1111 b_1111 a_1111 a_1111 [49] [50] [120;121;122] []);
+    try assumption; try discriminate; try reflexivity.
+  - left. repeat split; reflexivity.
+  - repeat constructor; unfold is_dec; lia.
+  - repeat constructor; unfold is_dec; lia.
+Qed.
+
+Theorem v1_tcp6_v4mapped_refuted ipf :
+  ipf b_mapped = Some a_1111 -> ipf b_v6 = Some a_v6 ->
+  pp_parse ipf line_mapped = Reject E1_family_mismatch.
+Proof.
+  intros H1 H2. unfold line_mapped.
+  apply (v1_family_mismatch_rejected ipf 54 b_mapped b_v6 a_1111 a_v6 [49;32;50] []);
+    try assumption; try discriminate; try reflexivity.
+  right. split; [reflexivity|left; reflexivity].
+Qed.
+
+(* ================================================================== *)
+(* canonical decimal text of a port                                    *)
+Definition dec_ok (p : N) : bool :=
+  negb (lenN (dec p) =? 0) && forallb (fun c => (48 <=? c) && (c <=? 57)) (dec p) && (dec_value (dec p) =? p).
+
+Lemma dec_ok_all : forallb (fun hi => forallb (fun lo => dec_ok (hi * 256 + lo)) all_bytes) all_bytes = true.
+Proof. vm_compute. reflexivity. Qed.
+
+Lemma dec_canonical p : p < 65536 -> dec p <> [] /\ Forall is_dec (dec p) /\ dec_value (dec p) = p.
+Proof.
+  intros H. assert (Hhi : p / 256 < 256) by lia. assert (Hlo : p mod 256 < 256) by lia.
+  pose proof (forallb_bytes _ dec_ok_all _ Hhi) as A. cbv beta in A.
+  pose proof (forallb_bytes _ A _ Hlo) as B. cbv beta in B.
+  replace (p / 256 * 256 + p mod 256) with p in B by lia.
+  unfold dec_ok in B. apply andb_true_iff in B as [B B3]. apply andb_true_iff in B as [B1 B2].
+  split; [|split].
+  - intros E. rewrite E in B1. discriminate.
+  - clear B1 B3. induction (dec p) as [|c l IH]; [constructor|]. cbn [forallb] in B2.
+    apply andb_true_iff in B2 as [Hc Hl]. constructor; [unfold is_dec; lia|exact (IH Hl)].
+  - apply N.eqb_eq. exact B3.
+Qed.
+
+Corollary v1_tcp_roundtrip_numeric ipf fam st dt sa da sp dp rest :
+  st <> [] -> dt <> [] -> forallb ipChars st = true -> forallb ipChars dt = true ->
+  ipf st = Some sa -> ipf dt = Some da ->
+  ((fam = 52 /\ is_ipv4 sa = true /\ is_ipv4 da = true) \/ (fam = 54 /\ is_ipv4 sa = false /\ is_ipv4 da = false)) ->
+  sp < 65536 -> dp < 65536 ->
+  lenN (enc_v1_tcp fam st dt (dec sp) (dec dp)) <= v1_maxHeaderLength ->
+  pp_parse ipf (enc_v1_tcp fam st dt (dec sp) (dec dp) ++ rest) =
+  Ok {| h_v2 := false; h_cmd := pp_cmdProxy; h_ignore := false;
+        h_src := sa; h_sport := sp; h_dst := da; h_dport := dp; h_tlvs := [] |}
+     (lenN (enc_v1_tcp fam st dt (dec sp) (dec dp))).
+Proof.
+  intros Hst Hdt Hsc Hdc Hsa Hda Hfam Hsp Hdp Hlen.
+  destruct (dec_canonical sp Hsp) as (S1 & S2 & S3). destruct (dec_canonical dp Hdp) as (D1 & D2 & D3).
+  rewrite (v1_tcp_roundtrip ipf fam st dt sa da (dec sp) (dec dp) rest); try assumption; try lia.
+  rewrite S3, D3. reflexivity.
+Qed.
